@@ -1592,3 +1592,10 @@ LEVEL_NOTE = ('Trusted: Lean kernel; axioms ⊆ {propext, Classical.choice, Quot
               'of glob ports under dict topologies are outside the oracle\'s well-formed class (notes/C15.md).')
 TECHNIQUE = ('Lean 4 proof (invariants over folds of declarations, induction over wiring paths) + '
              'model/code correspondence (differential) + lexical oracle on the implementation')
+
+
+# instances of one process class sharing their ports_schema dictionary: each variable gets the
+# default its OWN declarer gave it (an override on one instance must not leak into the others)
+from harness import schemaleak as _sl          # noqa: E402
+from harness.mixins import add_family as _add_family   # noqa: E402
+_add_family(globals(), _sl, 'schemaleak', lambda case, impl: _sl.oracle(case, impl, who=('values',)), share=0.02)
